@@ -148,6 +148,7 @@ func (n *Node) Diff(o *Node, path string) string {
 type History struct {
 	Models []*Node
 	canon  []string
+	Specs  []*BatchSpec // Specs[i] produced Models[i]; nil for the initial state and for resets
 }
 
 func NewHistory() *History {
@@ -159,6 +160,45 @@ func NewHistory() *History {
 func (h *History) push(n *Node) {
 	h.Models = append(h.Models, n)
 	h.canon = append(h.canon, n.Canon())
+	h.Specs = append(h.Specs, nil)
+}
+
+// applyStructure executes only the structural part of a batch (child
+// collections created / deleted), ignoring every key operation.
+func (n *Node) applyStructure(b *BatchSpec) {
+	if b == nil {
+		return
+	}
+	for _, name := range b.DelKids {
+		delete(n.Kids, name)
+	}
+	for _, name := range b.kidNames() {
+		c, ok := n.Kids[name]
+		if !ok {
+			c = NewNode()
+			n.Kids[name] = c
+		}
+		c.applyStructure(b.Kids[name])
+	}
+}
+
+// PendingStructuralOnly: the batches after model_j have no surviving key
+// operation - replaying only their structural part (child collections created
+// / deleted) on model_j already gives model_n.  (A key operation of a pending
+// batch does not survive when its child collection is deleted by a later
+// pending batch.)
+func (h *History) PendingStructuralOnly(j int) bool {
+	if j >= h.N() {
+		return false
+	}
+	r := h.Models[j].Clone()
+	for i := j + 1; i <= h.N(); i++ {
+		if h.Specs[i] == nil {
+			return false
+		}
+		r.applyStructure(h.Specs[i])
+	}
+	return r.Canon() == h.Last().Canon()
 }
 
 func (h *History) Last() *Node { return h.Models[len(h.Models)-1] }
@@ -169,6 +209,7 @@ func (h *History) ApplyBatch(b *BatchSpec) {
 	n := h.Last().Clone()
 	n.Apply(b)
 	h.push(n)
+	h.Specs[len(h.Specs)-1] = b
 }
 
 // ResetTo makes content c the new model (after a revert): appended as a new
